@@ -32,7 +32,15 @@ fn extras_from(picks: &[(u8, u8, u8, u8)], n: usize, nodes: &[Node]) -> Vec<Vec<
         let ta = targets[(*a as usize * targets.len()) >> 8];
         let tb = targets[(*b as usize * targets.len()) >> 8];
         let id = format!("x{k}");
-        let v: Vec<(String, String)> = match kind % 5 {
+        // a referrer may also point at the previous extra, so that extras form chains of their own
+        let prev = if k > 0 && m % 2 == 0 { format!("x{}", k - 1) } else { id_of(ta) };
+        let v: Vec<(String, String)> = match kind % 9 {
+            // offsets / size deltas computed from another element: the element is not laid out until they resolve
+            5 => vec![("_el".into(), "rect".into()), ("id".into(), id), ("x".into(), format!("{}", m % 11)), ("y".into(), format!("{}", m % 7)), ("width".into(), "5".into()), ("height".into(), "4".into()),
+                      ((if m % 3 == 0 { "dx" } else if m % 3 == 1 { "dy" } else { "dxy" }).into(), format!("{{{{#{}~w}}}}", id_of(tb)))],
+            6 => vec![("_el".into(), "rect".into()), ("id".into(), id), ("xy".into(), format!("#{prev}|h {}", m % 5)), ("wh".into(), format!("{}", 2 + m % 4))],
+            7 => vec![("_el".into(), "rect".into()), ("id".into(), id), ("inside".into(), format!("#{}", id_of(tb))), ("margin".into(), format!("{}", (m % 3) as f32 * 0.25))],
+            8 => vec![("_el".into(), "rect".into()), ("id".into(), id), ("xy".into(), format!("#{prev}@br")), ("width".into(), "6".into()), ("height".into(), "3".into()), ("dw".into(), format!("{{{{#{}~h / 2}}}}", id_of(tb)))],
             0 => vec![("_el".into(), "rect".into()), ("id".into(), id), ("surround".into(), format!("#{} #{}", id_of(ta), id_of(tb))), ("margin".into(), format!("{}", m % 5))],
             1 => vec![("_el".into(), "line".into()), ("id".into(), id), ("start".into(), format!("#{}", id_of(ta))), ("end".into(), format!("#{}", id_of(tb)))],
             2 => vec![("_el".into(), "polyline".into()), ("id".into(), id), ("start".into(), format!("#{}@r", id_of(ta))), ("end".into(), format!("#{}@l", id_of(tb)))],
@@ -53,7 +61,7 @@ fn extra_xml(v: &[(String, String)]) -> XEl {
 }
 
 fn fam_dag(_t: Tier) -> BoxedStrategy<Case> {
-    (vec(npick(), 2..7), vec((any::<u8>(), any::<u8>(), any::<u8>(), any::<u8>()), 0..3), any::<u64>())
+    (vec(npick(), 2..7), vec((any::<u8>(), any::<u8>(), any::<u8>(), any::<u8>()), 0..4), any::<u64>())
         .prop_map(|(p, ex, perm_seed)| {
             let mut nodes = build_nodes(&p, true);
             // groups hold children whose ids are not referenced: fine. Keep at most 7 siblings in total.
@@ -267,7 +275,7 @@ impl Property for C10 {
                     Some((_, name2, g2)) => {
                         if name != name2 || !geo_equal(g, g2) {
                             let spelled = doc.lines().find(|l| l.contains(&format!("id=\"{id}\""))).unwrap_or("").trim().to_string();
-                            let kind = if spelled.contains("start=") { "connector" } else if spelled.contains("surround=") { "surround" } else if spelled.contains("width=") && spelled.contains("xy=") { "xy+width/height" } else { "other" };
+                            let kind = if spelled.contains("start=") { "connector" } else if spelled.contains("surround=") { "surround" } else if spelled.contains("inside=") { "inside" } else if spelled.contains("width=") && spelled.contains("xy=") { "xy+width/height" } else { "other" };
                             return Verdict::fail(
                                 format!("c10:geometry-depends-on-order:{kind}"),
                                 format!("element #{id}: baseline {name} {g:?} vs permuted {name2} {g2:?}\n--- baseline ---\n{base_doc}\n--- permuted ---\n{doc}\n--- permuted output ---\n{out}"),
